@@ -690,127 +690,7 @@ func runC20(c *Ctx) {
 	}()
 
 	// ---- C20.scale
-	rule = "C20.scale"
-	c.R.Rule(rule, "Precision.Scale() is the tick length in nanoseconds, 10^(9-p): recognised as (a) the accumulation loop d = 1; for i = 9; i > p; i-- { d *= 10 } - initial value 1, factor 10, counter from 9 down to p exclusive - or (b) a lookup in a package-level table whose literal is folded and compared entry by entry with 10^(9-i), i = 0..9; any other form is undecided")
-	func() {
-		sc := p.Method(core.PkgProto, "Precision", "Scale")
-		if !c.must(p, "proto.Precision.Scale", sc != nil) {
-			return
-		}
-		key := "proto.(Precision).Scale"
-		pow := func(n int64) int64 {
-			r := int64(1)
-			for ; n > 0; n-- {
-				r *= 10
-			}
-			return r
-		}
-		// (b) table form
-		for _, b := range sc.Blocks {
-			for _, in := range b.Instrs {
-				ia, ok := in.(*ssa.IndexAddr)
-				if !ok {
-					continue
-				}
-				g, ok := ia.X.(*ssa.Global)
-				if !ok {
-					continue
-				}
-				if _, isParam := stripConv(ia.Index).(*ssa.Parameter); !isParam {
-					c.R.Unk(rule, key, cfg, p.Pos(ia.Pos()), "table index is not the precision itself")
-					return
-				}
-				tbl := map[int64]int64{}
-				if init := g.Pkg.Func("init"); init != nil {
-					for _, ib := range init.Blocks {
-						for _, ii := range ib.Instrs {
-							st, ok := ii.(*ssa.Store)
-							if !ok {
-								continue
-							}
-							ea, ok := st.Addr.(*ssa.IndexAddr)
-							if !ok || ea.X != ssa.Value(g) {
-								continue
-							}
-							i, ok1 := core.ConstInt(ea.Index)
-							v, ok2 := core.ConstInt(st.Val)
-							if ok1 && ok2 {
-								tbl[i] = v
-							}
-						}
-					}
-				}
-				var wrong []string
-				for i := int64(0); i <= 9; i++ {
-					if tbl[i] != pow(9-i) {
-						wrong = append(wrong, sprintf("[%d] = %d, want %d", i, tbl[i], pow(9-i)))
-					}
-				}
-				if len(wrong) > 0 {
-					c.R.Bad(rule, key, cfg, p.Pos(ia.Pos()), "scale table "+g.Name()+": "+strings.Join(wrong, "; ")+" - DateTime64 values of that precision are off by a power of ten")
-				} else {
-					c.R.Ok(rule, key, cfg, p.Pos(ia.Pos()), "table "+g.Name()+"[p] = 10^(9-p) for p = 0..9")
-				}
-				return
-			}
-		}
-		// (a) loop form
-		var acc, ctr *ssa.Phi
-		for _, b := range sc.Blocks {
-			for _, in := range b.Instrs {
-				ph, ok := in.(*ssa.Phi)
-				if !ok || len(ph.Edges) != 2 {
-					continue
-				}
-				for i, e := range ph.Edges {
-					bo, ok := e.(*ssa.BinOp)
-					if !ok || bo.X != ssa.Value(ph) {
-						continue
-					}
-					k, okk := core.ConstInt(bo.Y)
-					k0, ok0 := core.ConstInt(ph.Edges[1-i])
-					if !okk || !ok0 {
-						continue
-					}
-					if bo.Op == token.MUL && k == 10 && k0 == 1 {
-						acc = ph
-					}
-					if bo.Op == token.SUB && k == 1 && k0 == 9 {
-						ctr = ph
-					}
-				}
-			}
-		}
-		if acc == nil || ctr == nil {
-			c.R.Unk(rule, key, cfg, p.Pos(sc.Pos()), "neither the accumulation loop (1, *10, counter 9 downwards) nor a table lookup recognised")
-			return
-		}
-		// loop test: ctr > p ; result: acc
-		okCond, okRet := false, false
-		for _, b := range sc.Blocks {
-			for _, in := range b.Instrs {
-				switch x := in.(type) {
-				case *ssa.If:
-					if bo, ok := x.Cond.(*ssa.BinOp); ok {
-						_, yParam := stripConv(bo.Y).(*ssa.Parameter)
-						_, xParam := stripConv(bo.X).(*ssa.Parameter)
-						if bo.Op == token.GTR && bo.X == ssa.Value(ctr) && yParam || bo.Op == token.LSS && bo.Y == ssa.Value(ctr) && xParam {
-							okCond = b.Succs[0] != nil
-						}
-					}
-				case *ssa.Return:
-					if len(x.Results) == 1 && x.Results[0] == ssa.Value(acc) {
-						okRet = true
-					}
-				}
-			}
-		}
-		if okCond && okRet {
-			c.R.Ok(rule, key, cfg, p.Pos(sc.Pos()), "d = 1; 9-p multiplications by 10")
-		} else {
-			c.R.Bad(rule, key, cfg, p.Pos(sc.Pos()), sprintf("accumulation loop found but its bound (counter > precision: %v) or its result (returns the accumulator: %v) is not the expected one: Scale() != 10^(9-p)", okCond, okRet))
-		}
-	}()
+	ruleScale(c, p, "C20.scale")
 
 	// ---- C20.ipinverse
 	rule = "C20.ipinverse"
@@ -972,6 +852,9 @@ func runC20(c *Ctx) {
 		}
 	}()
 
+	ruleDerivedFields(c, p, "C20.derived")
+	rulePerElementZone(c, p, "C20.per-element")
+
 	// ---- C20.family
 	rule = "C20.family"
 	c.R.Rule(rule, "no conversion between distinct temporal scalar types (Date, Date32, DateTime, DateTime64) inside the column methods: a Date32 column that goes through the 16-bit Date helper wraps every day outside 1970..2149")
@@ -1095,6 +978,209 @@ func ruleIPCalls(c *Ctx, p *core.Program, rule string, fn *ssa.Function, allowed
 	c.R.Ok(rule, key, cfg, p.Pos(fn.Pos()), "only bijective accessors")
 }
 
+// ruleScale (C20.scale / C01.scale): Precision.Scale is 10^(9-p).
+func ruleScale(c *Ctx, p *core.Program, rule string) {
+	cfg := p.Cfg.Name
+	c.R.Rule(rule, "Precision.Scale() is the tick length in nanoseconds, 10^(9-p): recognised as (a) the accumulation loop d = 1; for i = 9; i > p; i-- { d *= 10 } - initial value 1, factor 10, and a unit-step counter whose trip count (from its initial value, step and loop test, all affine in p) is 9-p - or (b) a lookup in a package-level table whose literal is folded and compared entry by entry with 10^(9-i), i = 0..9; any other form is undecided")
+	func() {
+		sc := p.Method(core.PkgProto, "Precision", "Scale")
+		if !c.must(p, "proto.Precision.Scale", sc != nil) {
+			return
+		}
+		key := "proto.(Precision).Scale"
+		pow := func(n int64) int64 {
+			r := int64(1)
+			for ; n > 0; n-- {
+				r *= 10
+			}
+			return r
+		}
+		// (b) table form
+		for _, b := range sc.Blocks {
+			for _, in := range b.Instrs {
+				ia, ok := in.(*ssa.IndexAddr)
+				if !ok {
+					continue
+				}
+				g, ok := ia.X.(*ssa.Global)
+				if !ok {
+					continue
+				}
+				if _, isParam := stripConv(ia.Index).(*ssa.Parameter); !isParam {
+					c.R.Unk(rule, key, cfg, p.Pos(ia.Pos()), "table index is not the precision itself")
+					return
+				}
+				tbl := map[int64]int64{}
+				if init := g.Pkg.Func("init"); init != nil {
+					for _, ib := range init.Blocks {
+						for _, ii := range ib.Instrs {
+							st, ok := ii.(*ssa.Store)
+							if !ok {
+								continue
+							}
+							ea, ok := st.Addr.(*ssa.IndexAddr)
+							if !ok || ea.X != ssa.Value(g) {
+								continue
+							}
+							i, ok1 := core.ConstInt(ea.Index)
+							v, ok2 := core.ConstInt(st.Val)
+							if ok1 && ok2 {
+								tbl[i] = v
+							}
+						}
+					}
+				}
+				var wrong []string
+				for i := int64(0); i <= 9; i++ {
+					if tbl[i] != pow(9-i) {
+						wrong = append(wrong, sprintf("[%d] = %d, want %d", i, tbl[i], pow(9-i)))
+					}
+				}
+				if len(wrong) > 0 {
+					c.R.Bad(rule, key, cfg, p.Pos(ia.Pos()), "scale table "+g.Name()+": "+strings.Join(wrong, "; ")+" - DateTime64 values of that precision are off by a power of ten")
+				} else {
+					c.R.Ok(rule, key, cfg, p.Pos(ia.Pos()), "table "+g.Name()+"[p] = 10^(9-p) for p = 0..9")
+				}
+				return
+			}
+		}
+		// (a) loop form: accumulator 1, *10; a counter stepping by one whose trip count, computed from its
+		// initial value, step and loop test as expressions affine in p, is 9 - p
+		type aff struct{ a, b int64 }
+		var affine func(v ssa.Value, d int) (aff, bool)
+		affine = func(v ssa.Value, d int) (aff, bool) {
+			v = stripConv(v)
+			if d > 6 {
+				return aff{}, false
+			}
+			if k, ok := core.ConstInt(v); ok {
+				return aff{k, 0}, true
+			}
+			if _, ok := v.(*ssa.Parameter); ok {
+				return aff{0, 1}, true
+			}
+			if bo, ok := v.(*ssa.BinOp); ok && (bo.Op == token.ADD || bo.Op == token.SUB) {
+				x, ok1 := affine(bo.X, d+1)
+				y, ok2 := affine(bo.Y, d+1)
+				if ok1 && ok2 {
+					if bo.Op == token.ADD {
+						return aff{x.a + y.a, x.b + y.b}, true
+					}
+					return aff{x.a - y.a, x.b - y.b}, true
+				}
+			}
+			return aff{}, false
+		}
+		var acc *ssa.Phi
+		var mul *ssa.BinOp
+		type counter struct {
+			ph   *ssa.Phi
+			init aff
+			step int64
+		}
+		var ctrs []counter
+		for _, b := range sc.Blocks {
+			for _, in := range b.Instrs {
+				ph, ok := in.(*ssa.Phi)
+				if !ok || len(ph.Edges) != 2 {
+					continue
+				}
+				for i, e := range ph.Edges {
+					bo, ok := e.(*ssa.BinOp)
+					if !ok || bo.X != ssa.Value(ph) {
+						continue
+					}
+					k, okk := core.ConstInt(bo.Y)
+					if !okk {
+						continue
+					}
+					if k0, ok0 := core.ConstInt(ph.Edges[1-i]); ok0 && bo.Op == token.MUL && k == 10 && k0 == 1 {
+						acc, mul = ph, bo
+					}
+					if init, ok0 := affine(ph.Edges[1-i], 0); ok0 && k == 1 && (bo.Op == token.SUB || bo.Op == token.ADD) {
+						step := int64(1)
+						if bo.Op == token.SUB {
+							step = -1
+						}
+						ctrs = append(ctrs, counter{ph, init, step})
+					}
+				}
+			}
+		}
+		if acc == nil || len(ctrs) == 0 {
+			c.R.Unk(rule, key, cfg, p.Pos(sc.Pos()), "neither the accumulation loop (1, *10, a counter stepping by one) nor a table lookup recognised")
+			return
+		}
+		// loop test on the counter: the edge that reaches the multiplication continues the loop
+		var trip *aff
+		okRet := false
+		for _, b := range sc.Blocks {
+			for _, in := range b.Instrs {
+				switch x := in.(type) {
+				case *ssa.If:
+					bo, ok := x.Cond.(*ssa.BinOp)
+					if !ok {
+						continue
+					}
+					for _, ct := range ctrs {
+						op, other := bo.Op, bo.Y
+						if stripConv(bo.Y) == ssa.Value(ct.ph) {
+							other = bo.X
+							switch op {
+							case token.LSS:
+								op = token.GTR
+							case token.LEQ:
+								op = token.GEQ
+							case token.GTR:
+								op = token.LSS
+							case token.GEQ:
+								op = token.LEQ
+							}
+						} else if stripConv(bo.X) != ssa.Value(ct.ph) {
+							continue
+						}
+						bound, okb := affine(other, 0)
+						if !okb {
+							continue
+						}
+						cont := b.Succs[0]
+						if !(cont == mul.Block() || cont.Dominates(mul.Block())) {
+							continue
+						}
+						var t aff
+						switch {
+						case ct.step < 0 && op == token.GTR:
+							t = aff{ct.init.a - bound.a, ct.init.b - bound.b}
+						case ct.step < 0 && op == token.GEQ:
+							t = aff{ct.init.a - bound.a + 1, ct.init.b - bound.b}
+						case ct.step > 0 && op == token.LSS:
+							t = aff{bound.a - ct.init.a, bound.b - ct.init.b}
+						case ct.step > 0 && op == token.LEQ:
+							t = aff{bound.a - ct.init.a + 1, bound.b - ct.init.b}
+						default:
+							continue
+						}
+						trip = &t
+					}
+				case *ssa.Return:
+					if len(x.Results) == 1 && x.Results[0] == ssa.Value(acc) {
+						okRet = true
+					}
+				}
+			}
+		}
+		if trip == nil {
+			c.R.Unk(rule, key, cfg, p.Pos(sc.Pos()), "accumulation loop found but its test is not a comparison of the counter with an expression affine in the precision")
+			return
+		}
+		if trip.a == 9 && trip.b == -1 && okRet {
+			c.R.Ok(rule, key, cfg, p.Pos(sc.Pos()), "d = 1; 9-p multiplications by 10")
+		} else {
+			c.R.Bad(rule, key, cfg, p.Pos(sc.Pos()), sprintf("accumulation loop multiplies by ten %d%+d*p times (want 9-p) and returns the accumulator: %v - Scale() != 10^(9-p)", trip.a, trip.b, okRet))
+		}
+	}()
+}
+
 // reachesInProto: fn, or a proto function it calls statically (to the given depth), calls a function satisfying pred.
 func reachesInProto(fn *ssa.Function, pred func(*types.Func) bool, depth int) bool {
 	seen := map[*ssa.Function]bool{}
@@ -1115,4 +1201,192 @@ func reachesInProto(fn *ssa.Function, pred func(*types.Func) bool, depth int) bo
 		return false
 	}
 	return rec(fn, 0)
+}
+
+// ---- derived-fields (C20 / C16): a field computed from another is recomputed wherever that one changes
+func ruleDerivedFields(c *Ctx, p *core.Program, rule string) {
+	c.R.Rule(rule, "cached derived state stays in step: when a method of a column type stores a field D whose value is computed from the value it stores into field P of the same receiver (a tick scale cached next to the precision), every other method of that type that stores P also stores D - otherwise the column reports the new parameter (Infer sets Precision) while converting with the value derived from the old one (Row and Append use the stale scale: 2024 reads as 1970)")
+	cfg := p.Cfg.Name
+	type st struct {
+		val ssa.Value
+		in  ssa.Instruction
+	}
+	n := 0
+	for _, ct := range columnTypes(p) {
+		if _, ok := ct.Underlying().(*types.Struct); !ok {
+			continue
+		}
+		stores := map[*ssa.Function]map[string][]st{}
+		var methods []*ssa.Function
+		for i := 0; i < ct.NumMethods(); i++ {
+			fn := p.Prog.FuncValue(ct.Method(i))
+			if fn == nil || fn.Blocks == nil || len(fn.Params) == 0 {
+				continue
+			}
+			if _, isPtr := fn.Params[0].Type().Underlying().(*types.Pointer); !isPtr {
+				continue
+			}
+			m := map[string][]st{}
+			for _, b := range fn.Blocks {
+				for _, in := range b.Instrs {
+					s, ok := in.(*ssa.Store)
+					if !ok {
+						continue
+					}
+					fa, ok := s.Addr.(*ssa.FieldAddr)
+					if !ok || fa.X != ssa.Value(fn.Params[0]) {
+						continue
+					}
+					name := fieldNameOnly(fa.X.Type(), fa.Field)
+					m[name] = append(m[name], st{s.Val, in})
+				}
+			}
+			if len(m) > 0 {
+				stores[fn] = m
+				methods = append(methods, fn)
+			}
+		}
+		sortFns(methods)
+		type pair struct{ p, d string }
+		pairs := map[pair]*ssa.Function{}
+		for _, fn := range methods {
+			m := stores[fn]
+			for dName, ds := range m {
+				for pName, ps := range m {
+					if dName == pName {
+						continue
+					}
+					for _, d := range ds {
+						for _, pv := range ps {
+							if _, isConst := pv.val.(*ssa.Const); isConst {
+								continue
+							}
+							if d.val != pv.val && core.DependsOn(d.val, func(v ssa.Value) bool { return v == pv.val }, true) {
+								// and not the other way round (two views of one source are not a derivation)
+								if !core.DependsOn(pv.val, func(v ssa.Value) bool { return v == d.val }, true) {
+									if _, seen := pairs[pair{pName, dName}]; !seen {
+										pairs[pair{pName, dName}] = fn
+									}
+								}
+							}
+						}
+					}
+				}
+			}
+		}
+		for pr, origin := range pairs {
+			for _, fn := range methods {
+				if fn == origin {
+					continue
+				}
+				m := stores[fn]
+				if len(m[pr.p]) == 0 {
+					continue
+				}
+				n++
+				key := sprintf("%s.%s/%s-with-%s", ct.Obj().Name(), fn.Name(), pr.d, pr.p)
+				// D may be an object that is told about the new value instead of being replaced: a call on the
+				// loaded value of D that is handed the value stored to P (c.Data.Infer(t) next to c.DataType = t)
+				told := false
+				for _, call := range core.Calls(fn) {
+					cc := call.Common()
+					recvV := cc.Value
+					if !cc.IsInvoke() && len(cc.Args) > 0 {
+						recvV = cc.Args[0]
+					}
+					fromD := core.DependsOn(recvV, func(v ssa.Value) bool {
+						fa, ok := v.(*ssa.FieldAddr)
+						return ok && fa.X == ssa.Value(fn.Params[0]) && fieldNameOnly(fa.X.Type(), fa.Field) == pr.d
+					}, false)
+					if !fromD {
+						continue
+					}
+					for _, a := range cc.Args {
+						for _, pv := range m[pr.p] {
+							if a == pv.val {
+								told = true
+							}
+						}
+					}
+				}
+				if len(m[pr.d]) > 0 {
+					c.R.Ok(rule, key, cfg, p.Pos(fn.Pos()), "stores both")
+				} else if told {
+					c.R.Ok(rule, key, cfg, p.Pos(fn.Pos()), "hands the new value to the object held in "+pr.d)
+				} else {
+					c.R.Bad(rule, key, cfg, p.Pos(m[pr.p][0].in.Pos()), sprintf("%s.%s stores %s but not %s, which %s computes from it: the derived value goes stale", ct.Obj().Name(), fn.Name(), pr.p, pr.d, origin.Name()))
+				}
+			}
+		}
+	}
+	c.R.Count("derived-field obligations["+cfg+"]", n)
+}
+
+func sortFns(fs []*ssa.Function) {
+	sort.Slice(fs, func(i, j int) bool { return fs[i].Name() < fs[j].Name() })
+}
+
+// ---- per-element (C20): a batch conversion takes nothing from one element for all the others
+func rulePerElementZone(c *Ctx, p *core.Program, rule string) {
+	c.R.Rule(rule, "batch conversions treat every element on its own: in a proto function that loops over a []time.Time parameter, nothing computed from a fixed element of that slice (vs[0].Zone(), vs[0].Location() ...) is used inside the loop - the zone offset of the first value applied to all puts values of another zone (or of the other side of a DST change) on the wrong day, and AppendArr disagrees with Append")
+	cfg := p.Cfg.Name
+	n := 0
+	for _, fn := range p.Funcs() {
+		if pkgOf(fn) == nil || pkgOf(fn).Path() != core.PkgProto || fn.Blocks == nil {
+			continue
+		}
+		var vs *ssa.Parameter
+		for _, pr := range fn.Params {
+			if sl, ok := pr.Type().Underlying().(*types.Slice); ok && core.IsNamed(sl.Elem(), "time", "Time") {
+				vs = pr
+			}
+		}
+		if vs == nil {
+			continue
+		}
+		n++
+		key := core.FuncName(fn)
+		fixedElem := func(v ssa.Value) bool {
+			u, ok := v.(*ssa.UnOp)
+			if !ok || u.Op != token.MUL {
+				return false
+			}
+			ia, ok := u.X.(*ssa.IndexAddr)
+			if !ok || ia.X != ssa.Value(vs) {
+				return false
+			}
+			_, isConst := core.ConstInt(ia.Index)
+			return isConst
+		}
+		var bad ssa.Instruction
+		for _, b := range fn.Blocks {
+			for _, in := range b.Instrs {
+				if !core.InLoop(in) {
+					continue
+				}
+				if _, isPhi := in.(*ssa.Phi); isPhi {
+					continue
+				}
+				for _, op := range in.Operands(nil) {
+					if *op == nil {
+						continue
+					}
+					// computed outside the loop from a fixed element
+					if oi, ok := (*op).(ssa.Instruction); ok && core.InLoop(oi) {
+						continue
+					}
+					if core.DependsOn(*op, fixedElem, true) {
+						bad = in
+					}
+				}
+			}
+		}
+		if bad != nil {
+			c.R.Bad(rule, key, cfg, p.Pos(bad.Pos()), "a value computed from one fixed element of the batch (its zone offset) is used for every element of the loop: elements in another zone or on the other side of a DST change are converted with the wrong offset")
+		} else {
+			c.R.Ok(rule, key, cfg, p.Pos(fn.Pos()), "nothing from a fixed element is used inside the loop")
+		}
+	}
+	c.R.Count("batch conversions over []time.Time["+cfg+"]", n)
+	c.R.Floor(rule, cfg, n, 3)
 }
